@@ -98,13 +98,22 @@ def build(flavour="plain", verbose=False):
     out = BUILD_ROOT / ("%s-%s" % (flavour, tag))
     done = out / ".done"
     if done.exists():
+        try:
+            os.utime(out, None)
+        except OSError:
+            pass
         return out
     if out.exists():
         shutil.rmtree(out)
-    # keep one generation per flavour
+    # drop generations that have not been used for two hours (another check may still be importing a recent one)
     if BUILD_ROOT.exists():
+        import time
         for old in BUILD_ROOT.glob(flavour + "-*"):
-            shutil.rmtree(old, ignore_errors=True)
+            try:
+                if time.time() - old.stat().st_mtime > 7200:
+                    shutil.rmtree(old, ignore_errors=True)
+            except OSError:
+                pass
     out.mkdir(parents=True)
     flags = FLAVOURS[flavour]
 
